@@ -128,7 +128,7 @@ def build_cases(ctx: Ctx, mc_cases):
     for c in mc_cases:
         k = G.kinds_of(c['tree'])
         (rt if k & {'par', 'foreach'} else direct).append(c)
-    n_rt = 120 if quick else 2500
+    n_rt = 120 if quick else 1500
     n_dir = 9000 if quick else len(direct)
     rt_pick = rt if len(rt) <= n_rt else rng.sample(rt, n_rt)
     # all ParallelDo / ForEach roots of depth <= 1 are always run (the smallest witnesses)
@@ -140,13 +140,13 @@ def build_cases(ctx: Ctx, mc_cases):
                       'workers': rng.randint(1, 4), 'sched': rng.randrange(1 << 20), 'src': 'tlc-enumerated',
                       'l2d': bool(c.get('l2d'))})
     counts = {'tlc_direct_total': len(direct), 'tlc_runtime_total': len(rt), 'tlc_direct_run': len(dir_pick), 'tlc_runtime_run': len(rt_pick)}
-    for i in range(1000 if quick else 20000):
+    for i in range(1000 if quick else 8000):
         cases.append(G.direct_case(rng, i))
-    for i in range(180 if quick else 2400):
+    for i in range(180 if quick else 1500):
         cases.append(G.fe_case(rng, i))
-    for i in range(50 if quick else 800):
+    for i in range(50 if quick else 500):
         cases.append(G.par_case(rng, i))
-    for i in range(40 if quick else 800):
+    for i in range(40 if quick else 500):
         cases.append(G.mixed_case(rng, i))
     return cases, counts
 
@@ -274,7 +274,7 @@ def run(ctx: Ctx) -> Outcome:
         'rule': 'one case = one pass tree + scripts run on the real passes; non-trivial = at least one control pass and at least one '
                 'body execution; distinct by hash of (input, tree, scripts)',
         'exhaustive': False,
-        'exhaustive_part': 'TLC enumerates every pass tree of depth <= 2 over the alphabet (2 body kinds quick / 5 thorough, all seven '
+        'exhaustive_part': 'TLC enumerates every pass tree of depth <= 2 over the alphabet (2 body kinds x 3 scripts quick / 3 body kinds x 4 scripts thorough, all seven '
                            'control passes) x every script assignment; all of those that need no runtime are run (quick: a seeded '
                            'sample of %d), the ParallelDo/ForEach ones are sampled' % n_dir_quick,
         'model_checking': {'spec': 'specs/control/ControlFlowMC.tla', 'actions': acts, **counts},
